@@ -545,3 +545,20 @@ func VerifAudition(cfgText string, events []VerifEvent, earlyExit bool, writeCSV
 	}
 	return res
 }
+
+// VerifSinks returns the "actor signal" pairs that have a sink (an audience),
+// i.e. the signals detectSignals would forward at all.
+func VerifSinks(cfgText string) (sinks []string, parseErr string) {
+	cfg, err := verifParseString(cfgText, nil)
+	if err != nil {
+		return nil, err.Error()
+	}
+	for _, an := range cfg.actorNames {
+		a := cfg.actors[an]
+		for sn := range a.sinks {
+			sinks = append(sinks, an+" "+sn)
+		}
+	}
+	sort.Strings(sinks)
+	return sinks, ""
+}
